@@ -3,7 +3,7 @@
 Level S correspondence on AndersonCD (every epoch / intercept / extrapolation-acceptance transition is
 the model's) + oracles on the real code: true objective at return <= at start, non-increasing along
 deterministic budget prefixes (max_iter 0..6, max_epochs 1..20 around the extrapolation period)."""
-from .solver_common import run_parallel
+from .solver_common import run_parallel, run_bbox
 
 LEAN_MODULES = ["Skglm.Properties.C03"]
 
@@ -13,6 +13,7 @@ def run(ctx, rep):
                 "step range) + for each case the budget ladders max_iter in {0,1,2,3,4,6} and max_epochs in "
                 "{1,2,5,6,7,8,12,13,14,20}; each solve is one evaluation; non-trivial = at least one outer iteration")
     run_parallel(ctx, rep, oracles=["descent", "budget"], n_quick=7, n_thorough=80)
+    run_bbox(ctx, rep, oracles=["descent"], ladder=True, solvers_=["ProxNewton", "GramCD", "GroupBCD", "GroupProxNewton", "MultiTaskBCD"], n_quick=30, n_thorough=200)
 
 
 def replay(ctx, payload):
